@@ -30,7 +30,12 @@ RULE = ("every row of every readable shipped set (exhaustive on the real code; t
         "float64 / float32 / integer arrays, matrices in every layout and as 2x2 planar rotations; a grid of cone "
         "parameters (sampling coarser than the cone, axis sampling coarser than the axis range, zero axis range, "
         "integer and numpy scalar arguments, the default axis given explicitly in several containers, > 10 000 "
-        "rotations); QR branch for dim 2..5; covering search per set. distinct = distinct (kind, parameters) cases; "
+        "rotations); QR branch for dim 2..5; rotation_aligning_vectors for random pairs at every angle in [0.5, 179.5] "
+        "degrees, any lengths, coordinate axes, integer vectors, default target, list / tuple / float64 / float32 input, "
+        "exactly parallel / allclose / exactly antiparallel / zero vectors; convention strings of euler_to_rotationmatrix "
+        "(all 24 of scipy, strings longer / shorter than the number of angles, 0..4 angles, repeated axes, mixed case, "
+        "foreign letters, random strings over xyzXYZ); cone sampling about general axes (random directions and lengths, "
+        "coordinate axes, the default axis, four containers; off gimbal lock of the aligning rotation); covering search per set. distinct = distinct (kind, parameters) cases; "
         "identity/trivial inputs are not counted")
 ASSUMPTIONS = [
     "the four rotation-set files emptied in this sandbox (size 0) are skipped and reported as skipped",
@@ -650,6 +655,11 @@ def _case_euler(ctx, case):
                  {"back": back, "R2": R2}, key="euler:to-from")
         if ok_b and seq == "zyx":
             mb = b2a(ctx.driver.call("c07.eulerFrom", m=a2b(R0.reshape(-1))))
+            # to(from(R)) as a rotation matrix: the algebraic round trip of the model (theorem euler_zyx_round_trip)
+            if R2.shape == (3, 3):
+                mrt = b2a(ctx.driver.call("c07.eulerRoundTrip", m=a2b(R0.reshape(-1)))).reshape(3, 3)
+                ctx.agree("euler_to(euler_from(R)) as a matrix", inp, R2, mrt,
+                          eq=lambda a, b: bool(np.abs(np.array(a, dtype=np.float64) - np.array(b, dtype=np.float64)).max() <= 1e-5))
             ctx.agree("euler_from_rotationmatrix", inp, back, mb, eq=lambda a, b: _ang_diff(a, b) <= TOL_DEG)
         if ok_b and case.get("canonical"):
             # angles inside the range the inverse returns (middle angle off gimbal lock): exact inverse
@@ -699,6 +709,135 @@ def _case_euler2(ctx, case):
     ctx.count(f"euler2:matrix={mdt}/{mlay}")
     if abs(a) > 1e-9:
         ctx.distinct(("euler2", seq, mdt, mlay, round(a, 4)))
+
+
+def _align_arg(x, cont):
+    if cont == "tuple":
+        return tuple(x)
+    if cont == "f8":
+        return np.array(x, dtype=np.float64)
+    if cont == "f4":
+        return np.array(x, dtype=np.float32)        # note: the function normalises a float32 array in place
+    return list(x)
+
+
+def _case_align(ctx, case):
+    """rotation_aligning_vectors(initial, target) (convention=None: the Rodrigues matrix) vs `Pm.C07.alignRotF`.
+    Regular pairs (angle between the vectors in [0.5, 179.5] degrees) are compared entry by entry; exactly parallel /
+    allclose pairs must give the identity on both sides; exactly antiparallel pairs and the zero vector give a matrix
+    of NaN on both sides (the axis is 0/0: behaviour of the code as it is, mirrored, not a clause of the property)."""
+    import tme.matching_utils as mu
+    u, v = [float(x) for x in case["u"]], [float(x) for x in case["v"]]
+    cont, cls = case.get("container", "list"), case.get("cls", "regular")
+    inp = {"kind": "align", "u": u, "v": v, "container": cont, "cls": cls}
+    if case.get("default_target"):
+        inp["default_target"] = True
+    try:
+        with np.errstate(all="ignore"):
+            if case.get("default_target"):
+                R = np.asarray(mu.rotation_aligning_vectors(_align_arg(u, cont)))
+            else:
+                R = np.asarray(mu.rotation_aligning_vectors(_align_arg(u, cont), _align_arg(v, cont)))
+    except Exception as e:
+        ctx.agree("rotation_aligning_vectors", inp, "raised:" + type(e).__name__, "returned")
+        return
+    m = b2a(ctx.driver.call("c07.align", u=[f2b(x) for x in u], v=[f2b(x) for x in v])).reshape(3, 3)
+    if R.shape != (3, 3):
+        ctx.agree("rotation_aligning_vectors: shape", inp, list(R.shape), [3, 3])
+        return
+    R = R.astype(np.float64)
+    ctx.count("align:class=" + cls)
+    ctx.count("align:container=" + cont)
+    u32, v32 = np.array(u, dtype=np.float32).astype(np.float64), np.array(v, dtype=np.float32).astype(np.float64)
+    with np.errstate(all="ignore"):
+        un, vn = u32 / np.linalg.norm(u32), v32 / np.linalg.norm(v32)
+        d = float(un @ vn)
+    if cls in ("antiparallel", "zero"):
+        ctx.agree("rotation_aligning_vectors: NaN pattern (axis 0/0)", inp, np.isnan(R).tolist(), np.isnan(m).tolist())
+        ctx.agree("rotation_aligning_vectors: all NaN as modelled", inp, bool(np.isnan(R).all()), True)
+        return
+    if cls in ("parallel", "close"):
+        ctx.agree("rotation_aligning_vectors: identity for allclose vectors", inp, R.tolist(), m.tolist())
+        ctx.spec("aligning a vector with itself is the identity", inp, bool(np.array_equal(R, np.eye(3))), {"R": R},
+                 key="align:identity")
+        return
+    if not (math.isfinite(d) and abs(d) <= math.cos(math.radians(0.4))):
+        ctx.count("align:outside-compared-range")
+        return
+    cond = 1.0 / math.sqrt(max(1.0 - d * d, 1e-7))
+    tol = 1e-5 + 2e-6 * cond
+    ctx.agree("rotation_aligning_vectors", inp, R, m,
+              eq=lambda a, b: bool(np.abs(np.array(a, dtype=np.float64) - np.array(b, dtype=np.float64)).max() <= tol))
+    oe, de = _eye_err(R[None])
+    ctx.spec("aligning rotation: orthonormal, det +1", inp, bool(oe[0] <= 3 * tol and de[0] <= 3 * tol),
+             {"R": R, "ortho_err": float(oe[0]), "det_err": float(de[0])}, key="align:proper")
+    ctx.spec("aligning rotation maps the normalised initial vector onto the normalised target", inp,
+             bool(np.abs(R @ un - vn).max() <= 3 * tol), {"R": R, "Ru": R @ un, "v": vn}, key="align:maps")
+    ctx.spec("aligning rotation: trace = 1 + 2 u.v, axis u x v fixed", inp,
+             bool(abs(np.trace(R) - 1 - 2 * d) <= 6 * tol and np.abs(R @ np.cross(un, vn) - np.cross(un, vn)).max() <= 3 * tol),
+             {"R": R, "d": d}, key="align:angle")
+    if abs(R[0, 2]) <= 0.99 and not case.get("default_target"):
+        # convention given: the matrix goes through euler_from_rotationmatrix (as get_rotations_around_vector calls it)
+        try:
+            with np.errstate(all="ignore"):
+                back = np.asarray(mu.rotation_aligning_vectors(_align_arg(u, cont), _align_arg(v, cont), convention="zyx"))
+        except Exception as e:
+            ctx.agree("rotation_aligning_vectors(convention)", inp, "raised:" + type(e).__name__, "returned")
+            return
+        if back.shape == (3,):
+            mb = b2a(ctx.driver.call("c07.eulerFrom", m=a2b(R.reshape(-1))))
+            ctx.agree("rotation_aligning_vectors(convention='zyx')", inp, back, mb, eq=lambda a, b: _ang_diff(a, b) <= TOL_DEG)
+        else:
+            ctx.agree("rotation_aligning_vectors(convention): shape", inp, list(back.shape), [3])
+    ctx.distinct(("align", cont, [round(x, 5) for x in u + v]))
+    if case.get("sample"):
+        ctx.sample({**inp, "R": R.tolist()})
+
+
+def _case_conv(ctx, case):
+    """the `convention` string of euler_to_rotationmatrix: which strings / numbers of angles are accepted, and the
+    matrix of the accepted ones, vs `Pm.C07.eulerToMatConvF` (string dispatch inside the model)"""
+    import tme.matching_utils as mu
+    conv, ang = case["convention"], [float(x) for x in case["angles"]]
+    inp = {"kind": "conv", "convention": conv, "angles": ang}
+    try:
+        R = np.asarray(mu.euler_to_rotationmatrix(tuple(ang), convention=conv))
+        impl = "matrix" if R.shape == (3, 3) else "shape:" + str(R.shape)
+    except ValueError:
+        R, impl = None, "err:ValueError"
+    except Exception as e:
+        R, impl = None, "raised:" + type(e).__name__
+    m = ctx.driver.call("c07.eulerConv", convention=conv, angles=[f2b(x) for x in ang])
+    model = m if isinstance(m, str) else "matrix"
+    ctx.agree("euler_to_rotationmatrix: convention accepted / rejected", inp, impl, model)
+    ctx.count("conv:" + impl.split(":")[-1])
+    if impl == "matrix" and model == "matrix":
+        mm = b2a(m).reshape(3, 3)
+        ctx.agree("euler_to_rotationmatrix(convention)", inp, R, mm,
+                  eq=lambda a, b: bool(np.abs(np.array(a, dtype=np.float64) - np.array(b, dtype=np.float64)).max() <= TOL_E32))
+        oe, de = _eye_err(R[None])
+        ctx.spec("orthonormal, det +1", inp, bool(oe[0] <= 1e-5 and de[0] <= 1e-5), {"R": R}, key="euler:proper")
+    ctx.distinct(("conv", conv, len(ang)))
+
+
+def _gen_conv(ctx, rng, n):
+    letters = "xyzXYZ"
+    cases = []
+    fixed = [("zyx", 3), ("zyx", 2), ("zyx", 1), ("zyx", 0), ("zyx", 4), ("zy", 3), ("zzx", 3), ("zyX", 3), ("zya", 3),
+             ("", 3), ("zyxz", 3), ("ZXZ", 3), ("XYZ", 2), ("z", 1), ("xyzx", 4), ("zxz", 2), ("Zyx", 2), ("zy x", 3),
+             ("ZYX", 3), ("xx", 2), ("x", 2), ("XYz", 2), ("abc", 3)]
+    for conv, k in fixed:
+        cases.append({"kind": "conv", "convention": conv, "angles": rng.uniform(-170, 170, size=k).tolist()})
+    for s in _SEQS:
+        cases.append({"kind": "conv", "convention": s, "angles": rng.uniform(-170, 170, size=3).tolist()})
+    for _ in range(n):
+        L = int(rng.integers(0, 6))
+        pool = letters if rng.random() < 0.8 else letters + "abw "
+        if rng.random() < 0.6:          # mostly one case only, so that many strings are accepted
+            pool = "xyz" if rng.random() < 0.5 else "XYZ"
+        conv = "".join(rng.choice(list(pool), size=L)) if L else ""
+        cases.append({"kind": "conv", "convention": conv, "angles": rng.uniform(-170, 170, size=int(rng.integers(0, 5))).tolist()})
+    return cases
 
 
 def _case_cone(ctx, case):
@@ -799,6 +938,87 @@ def _case_cone(ctx, case):
     if case.get("sample"):
         ctx.sample({**inp, "returned": len(R), "model_points": cnt["n"], "model_phi_steps": cnt["phiSteps"],
                     "max_tilt": float(tilt.max()) if ok_shape else None})
+
+
+def _case_conevec(ctx, case):
+    """get_rotations_around_vector about a general axis (convention=None): V * R_zyx(a, b, phi + a_V), vs
+    `Pm.C07.coneMatricesVec`; axes whose aligning rotation is near gimbal lock (|V02| > 0.95) or nearly antiparallel
+    to the first coordinate axis are not generated (the code goes through Euler angles of V there)"""
+    import tme.matching_utils as mu
+    ca, cs = float(case["cone_angle"]), float(case["cone_sampling"])
+    aa, asamp, ns = float(case.get("axis_angle", 360.0)), case.get("axis_sampling"), int(case.get("n_symmetry", 1))
+    w = [float(x) for x in case["vector"]]
+    cont = case.get("container", "tuple")
+    inp = {"kind": "conevec", "cone_angle": ca, "cone_sampling": cs, "axis_angle": aa, "axis_sampling": asamp,
+           "n_symmetry": ns, "vector": w, "container": cont}
+    import warnings
+    try:
+        with warnings.catch_warnings(), np.errstate(all="ignore"):
+            warnings.simplefilter("ignore")
+            R = np.asarray(mu.get_rotations_around_vector(cone_angle=ca, cone_sampling=cs, axis_angle=aa, axis_sampling=asamp,
+                                                          vector=_align_arg(w, cont), n_symmetry=ns))
+            V = np.asarray(mu.rotation_aligning_vectors([1, 0, 0], _align_arg(w, cont)), dtype=np.float64)
+    except Exception as e:
+        ctx.agree("get_rotations_around_vector(vector)", inp, "raised:" + type(e).__name__, "returned")
+        return
+    if not np.isfinite(V).all() or abs(V[0, 2]) > 0.95:
+        ctx.count("conevec:gimbal-or-antiparallel-not-compared")
+        return
+    asm = cs if asamp is None else float(asamp)
+    args = dict(coneAngle=f2b(ca), coneSampling=f2b(cs), axisAngle=f2b(aa), axisSampling=f2b(asm), nSym=ns)
+    cnt = ctx.driver.call("c07.coneCounts", **args)
+    rings = b2a(cnt["rings"])
+    boundary = bool(np.any((np.abs(rings - np.round(rings)) < 1e-9) & (rings != 0.0)))
+    expect = cnt["n"] * cnt["phiSteps"]
+    ok_shape = R.ndim == 3 and R.shape[1:] == (3, 3) and len(R) > 0
+    ctx.spec("returns rotation matrices", inp, ok_shape, {"shape": R.shape}, key="cone:shape")
+    if not ok_shape:
+        return
+    if boundary and len(R) != expect:
+        ctx.count("conevec:boundary-not-compared")
+    else:
+        ctx.agree("get_rotations_around_vector(vector): count", inp, len(R), expect)
+        if len(R) == expect and expect <= 6000:
+            mod = ctx.driver.call("c07.coneVec", vector=[f2b(x) for x in w], **args)
+            M = b2a(mod["mats"]).reshape(-1, 3, 3)
+            ctx.agree("get_rotations_around_vector(vector): matrices = V * Rzyx(a, b, phi + aV)", inp, [],
+                      [] if np.abs(M - R).max() <= 2e-6 else
+                      {"first_bad": int(np.argmax(np.abs(M - R).reshape(len(R), -1).max(axis=1))), "err": float(np.abs(M - R).max())})
+            ctx.count("conevec:matrices-compared", len(R))
+    oe, de = _eye_err(R)
+    i = int(np.argmax(np.maximum(oe, de)))
+    ctx.spec("orthonormal, det +1", {**inp, "index": i}, bool(oe[i] <= 1e-6 and de[i] <= 1e-6), {"R": R[i]}, key="cone:proper")
+    w32 = np.array(w, dtype=np.float32).astype(np.float64)
+    wn = w32 / np.linalg.norm(w32)
+    tilt = np.degrees(np.arccos(np.clip(R[:, :, 0] @ wn, -1, 1)))
+    i = int(np.argmax(tilt))
+    ctx.spec("general axis: the image of the first coordinate axis stays inside the requested cone about the vector",
+             {**inp, "index": i}, bool(tilt[i] <= ca + 0.05), {"tilt": tilt[i], "R": R[i]}, key="conevec:axis-inside")
+    ctx.count("conevec:container=" + cont)
+    ctx.distinct(("conevec", ca, cs, aa, asamp, ns, [round(x, 5) for x in w]))
+    if case.get("sample"):
+        ctx.sample({**inp, "returned": len(R), "max_tilt": float(tilt.max())})
+
+
+def _gen_conevec(ctx, rng, n):
+    grid = [(30, 10, 360, None, 1), (45, 10, 180, 15, 2), (60, 15, 90, 30, 4), (15, 5, 360, 20, 1), (90, 30, 360, 45, 3),
+            (0, 10, 360, 60, 1), (20, 3, 360, 40, 6), (12.5, 2.5, 120, 7.5, 1)]
+    conts = ["tuple", "list", "f8", "f4"]
+    cases = []
+    fixed = [(0.0, 1.0, 0.0), (1.0, 1.0, 0.0), (1.0, 0.0, 0.0), (3.0, 0.0, 0.0), (1.0, -2.0, 0.5), (0.3, 0.5, 0.8), (-1.0, 1.0, 0.0)]
+    k = 0
+    for i in range(n + len(fixed)):
+        if i < len(fixed):
+            w = np.array(fixed[i])
+        else:
+            w = rng.normal(size=3) * float(10 ** rng.uniform(-1, 1))
+            if w[0] / np.linalg.norm(w) < -0.9:
+                w[0] = -w[0]
+        a, s_, aa, asm, ns = grid[i % len(grid)]
+        cases.append({"kind": "conevec", "cone_angle": a, "cone_sampling": s_, "axis_angle": aa, "axis_sampling": asm,
+                      "n_symmetry": ns, "vector": [float(x) for x in w], "container": conts[i % 4]})
+    cases[0]["sample"] = True
+    return cases
 
 
 def _case_qr(ctx, case):
@@ -971,7 +1191,7 @@ def _case_cover(ctx, case):
 
 
 _CASES = {"table": _case_table, "setrows": _case_setrows, "request": _case_request, "session": _case_session,
-          "quat": _case_quat, "euler": _case_euler, "euler2": _case_euler2, "cone": _case_cone, "qr": _case_qr,
+          "quat": _case_quat, "euler": _case_euler, "euler2": _case_euler2, "cone": _case_cone, "qr": _case_qr, "align": _case_align, "conv": _case_conv, "conevec": _case_conevec,
           "cover": _case_cover}
 
 
@@ -1231,6 +1451,62 @@ def _gen_qr(ctx, rng, n):
     return cases
 
 
+def _gen_align(ctx, rng, n):
+    conts = ["list", "tuple", "f8", "f4"]
+    cases = []
+
+    def unit():
+        x = rng.normal(size=3)
+        return x / np.linalg.norm(x)
+    for i in range(n):
+        u = unit()
+        w = np.cross(u, unit())
+        w /= np.linalg.norm(w)
+        if i % 5 == 0:
+            th = float(rng.choice([0.5, 1.0, 2.0, 178.0, 179.0, 179.5, 90.0, 60.0, 120.0]))
+        else:
+            th = float(rng.uniform(0.5, 179.5))
+        v = math.cos(math.radians(th)) * u + math.sin(math.radians(th)) * w
+        su, sv = float(10 ** rng.uniform(-2, 2)), float(10 ** rng.uniform(-2, 2))
+        cases.append({"kind": "align", "u": (su * u).tolist(), "v": (sv * v).tolist(), "container": conts[i % 4]})
+    # default target [1, 0, 0]
+    for i in range(max(4, n // 6)):
+        u = unit()
+        if abs(u[0]) > 0.9999:
+            continue
+        cases.append({"kind": "align", "u": (float(rng.uniform(0.1, 10)) * u).tolist(), "v": [1.0, 0.0, 0.0],
+                      "container": conts[i % 4], "default_target": True})
+    # coordinate axes and small integer vectors
+    E = [[1.0, 0.0, 0.0], [0.0, 1.0, 0.0], [0.0, 0.0, 1.0]]
+    for a in range(3):
+        for b in range(3):
+            if a != b:
+                cases.append({"kind": "align", "u": E[a], "v": E[b], "container": conts[(a + b) % 4]})
+    for _ in range(max(4, n // 6)):
+        u, v = rng.integers(-5, 6, size=3).astype(float), rng.integers(-5, 6, size=3).astype(float)
+        if not (np.abs(np.cross(u, v)).max() > 0):
+            continue
+        d = float(u @ v / np.linalg.norm(u) / np.linalg.norm(v))
+        if abs(d) > math.cos(math.radians(0.5)):
+            continue
+        cases.append({"kind": "align", "u": u.tolist(), "v": v.tolist(), "container": "list"})
+    # exactly parallel (scaled by a power of two), allclose, exactly antiparallel, zero vector
+    for i in range(max(3, n // 10)):
+        u = np.sign(rng.normal(size=3)) * rng.uniform(0.2, 1.0, size=3)
+        u32 = u.astype(np.float32).astype(np.float64)
+        t = float(2.0 ** int(rng.integers(-3, 4)))
+        cases.append({"kind": "align", "u": u32.tolist(), "v": (t * u32).tolist(), "cls": "parallel", "container": conts[i % 4]})
+        cases.append({"kind": "align", "u": u32.tolist(), "v": (u32 * (1 + 2e-7 * rng.uniform(-1, 1, size=3))).tolist(),
+                      "cls": "close", "container": conts[(i + 1) % 4]})
+        cases.append({"kind": "align", "u": u32.tolist(), "v": (-t * u32).tolist(), "cls": "antiparallel",
+                      "container": conts[(i + 2) % 4]})
+    cases.append({"kind": "align", "u": [1.0, 0.0, 0.0], "v": [-1.0, 0.0, 0.0], "cls": "antiparallel"})
+    cases.append({"kind": "align", "u": [1.0, 0.0, 0.0], "v": [1.0, 0.0, 0.0], "cls": "parallel", "default_target": True})
+    cases.append({"kind": "align", "u": [0.0, 0.0, 0.0], "v": [1.0, 0.0, 0.0], "cls": "zero"})
+    cases[0]["sample"] = True
+    return cases
+
+
 def _row_sample(rng, n, cap):
     if n <= cap:
         return None
@@ -1262,6 +1538,15 @@ def run(ctx):
         _do(ctx, c)
     for c in _gen_qr(ctx, rng, ctx.budget(10, 300)):
         _do(ctx, c)
+    # ---- rotation_aligning_vectors (own stream: the draws of the streams above stay what they were)
+    for c in _gen_align(ctx, ctx.rng("align"), ctx.budget(60, 3000)):
+        _do(ctx, c)
+    for c in _gen_conv(ctx, ctx.rng("conv"), ctx.budget(60, 2000)):
+        _do(ctx, c)
+    for c in _gen_conevec(ctx, ctx.rng("conevec"), ctx.budget(12, 200)):
+        _do(ctx, c)
+    ctx.note("rotation_aligning_vectors: antiparallel / zero vectors return a matrix of NaN (axis 0/0), mirrored by the model; "
+             "pairs closer than 0.4 deg to (anti)parallel are compared only when exactly (anti)parallel / allclose")
     # ---- covering search (numerical, not a theorem)
     first = True
     for name, n, ang in S.readable():
@@ -1318,6 +1603,15 @@ def search(ctx):
             _do(ctx, c)
     if "qr" in kinds:
         for c in _gen_qr(ctx, rng, 80):
+            _do(ctx, c)
+    if "align" in kinds:
+        for c in _gen_align(ctx, rng, 1500):
+            _do(ctx, c)
+    if "conv" in kinds:
+        for c in _gen_conv(ctx, rng, 1500):
+            _do(ctx, c)
+    if "conevec" in kinds:
+        for c in _gen_conevec(ctx, rng, 100):
             _do(ctx, c)
     if "cover" in kinds:
         for name, n, ang in S.readable():
